@@ -631,8 +631,32 @@ func c02Run(ci any) Result {
 	if got.Kind == 'D' && len(sel) > 2 && !ident {
 		res.Nontrivial = true
 	}
+	if c02HostTwice(c) {
+		// `Echo.Host(name)` called twice for the request's Host: the present code installs a fresh router (the model follows it),
+		// but which of the tables registered for that very name serve it — the last one, or their union — is a set-up sequence
+		// the property's quantifier does not speak about ("routes registered for one host are used for exactly that Host value"
+		// holds either way).  Nothing is judged; the comparison with the model is reported as drift at most.
+		res.Oracle = ""
+		tags = append(tags, "request-host-created-twice(outside the quantifier)")
+	}
 	res.Tags = tags
 	return res
+}
+
+func c02HostTwice(c *c02Case) bool {
+	n := 0
+	for _, h := range c.Hosts {
+		if h.Host == c.Req.Host {
+			n++
+		}
+	}
+	return n > 1
+}
+
+// c02Tolerable: only the case above — the request's Host names a host router that was created more than once.
+func c02Tolerable(ci any, impl, model string) bool {
+	c, ok := ci.(*c02Case)
+	return ok && c02HostTwice(c)
 }
 
 var c02Prefixes = []string{"/api", "/ab", "/a", "/v1", "/users", "/api/", "", "/:tenant", "/ab/:id", "/new", "api", "/x.y", "/a/b"}
@@ -937,6 +961,7 @@ func init() {
 		Gen:            c02Gen,
 		Run:            c02Run,
 		Shrink:         c02Shrink,
+		Tolerable:      c02Tolerable,
 		Mutate:         c02Mutate,
 		Known:          c02Known,
 		Correspondence: "Router.Spec.routeTable ∘ C02.inForce ∘ C02.routeHost (lean/EchoModel/RouterSpec.lean, C02.lean; order-free L1 search on the registrations in force) vs Echo.Add/Group/Use/Host + Echo.ServeHTTP",
